@@ -11,6 +11,7 @@ import (
 	"reflect"
 	"regexp"
 	"strings"
+	"sync"
 )
 
 // C14 — JSON snapshots are canonical and lossless (DESIGN §6 C14).
@@ -486,6 +487,81 @@ func c14RunInvalid(c *vfCtx, cs c14Case, T string) {
 	c.count("invalid_inputs", int64(n))
 }
 
+// vfRaceGoValues is the free-running -race pass shared by C14 and C18: goroutines that are different tests call the JSON / YAML
+// entry points concurrently with Go values (the only input form that the library itself has to encode, through whatever
+// buffers and encoders it keeps), strings and bytes, through one shared Config. Each goroutine replays its own value, so
+// besides the race detector the outcome is known: added once, passed afterwards.
+type c14RaceDoc struct {
+	Name  string         `json:"name" yaml:"name"`
+	Items []int          `json:"items" yaml:"items"`
+	Meta  map[string]any `json:"meta" yaml:"meta"`
+	Pad   string         `json:"pad" yaml:"pad"`
+}
+
+func vfRaceGoValues(c *vfCtx, kinds []string) {
+	reps := 8
+	if c.thorough() {
+		reps = 40
+	}
+	const nG = 6
+	for r := 0; r < reps; r++ {
+		dir := filepath.Join(c.scratch, "racegv")
+		os.RemoveAll(dir)
+		os.MkdirAll(dir, 0o755)
+		vfResetState(false, "", true)
+		cfg := WithConfig(Dir(dir), Filename("f"))
+		cfgS := WithConfig(Dir(dir)) // standalone files are named after the test (a shared Filename would make the tests share files)
+		var wg sync.WaitGroup
+		var mu sync.Mutex
+		var probs []string
+		start := make(chan struct{})
+		for g := 0; g < nG; g++ {
+			wg.Add(1)
+			g := g
+			go func() {
+				defer wg.Done()
+				val := c14RaceDoc{Name: fmt.Sprintf("doc-%d", g), Items: []int{g, g + 1, g + 2}, Meta: map[string]any{"g": g, "k": []string{"a", "b"}}, Pad: strings.Repeat(fmt.Sprint(g), 50+g*300)}
+				<-start
+				for round := 0; round < 6; round++ {
+					t := &vfT{name: fmt.Sprintf("TestG%d", g)}
+					for _, k := range kinds {
+						mk := t.mark()
+						switch k {
+						case "json":
+							cfg.MatchJSON(t, val)
+						case "sjson":
+							cfgS.MatchStandaloneJSON(t, val)
+						case "json-bytes":
+							cfg.MatchJSON(t, []byte(fmt.Sprintf(` { "g" : %d , "pad" : %q } `, g, val.Pad)))
+						case "yaml":
+							cfg.MatchYAML(t, val)
+						case "yaml-text":
+							cfg.MatchYAML(t, fmt.Sprintf("g: %d\npad: %q\n", g, val.Pad))
+						}
+						want := "pass"
+						if round == 0 {
+							want = "added"
+						}
+						if got := t.outcome(mk); got != want {
+							mu.Lock()
+							probs = append(probs, fmt.Sprintf("goroutine %d round %d %s: %s, expected %s %v", g, round, k, got, want, t.errs))
+							mu.Unlock()
+						}
+					}
+					t.end()
+				}
+			}()
+		}
+		close(start)
+		wg.Wait()
+		c.count("race_runs", 1)
+		if len(probs) > 0 {
+			c.violation("", "free-running pass (not deterministically replayable): concurrent tests, each replaying its own Go value: "+strings.Join(probs[:1], "; "), map[string]any{"free_running": kinds})
+			return
+		}
+	}
+}
+
 func c14Names(o vfDirObs) []string {
 	var n []string
 	for k, v := range o {
@@ -495,6 +571,7 @@ func c14Names(o vfDirObs) []string {
 }
 
 func init() {
+	vfDrivers["C14"] = &vfDriver{race: func(c *vfCtx) { vfRaceGoValues(c, []string{"json", "sjson", "json-bytes"}) }}
 	vfRegister("C14", func(c *vfCtx, emit func(c14Case)) {
 		c.rule = "every document of the bounded grammar (22 scalars, 9 keys, arrays/objects up to depth 2-3) x 4 whitespace presentations x 3 member orders x {string, []byte}, the three input forms of its standard encoding, struct forms, 24 format option sets; " +
 			"invalid inputs = every proper prefix and 18 corruptions per document that encoding/json rejects"
